@@ -91,7 +91,7 @@ def fdae_solver(fdae: nFDAE,
         else:
             raise NotImplementedError("Multistep FDAE not implemented!")
 
-        sol = nr_method(ae, u0, Opt(ite_tol=opt.ite_tol, stats=True))
+        sol = nr_method(ae, u0, Opt(ite_tol=opt.ite_tol, stats=True, min_it=1))
         u1 = sol.y
         stats.ndecomp = stats.ndecomp + sol.stats.ndecomp
         stats.nfeval = stats.nfeval + stats.nfeval
